@@ -23,6 +23,7 @@ def c18(tier):
     nl.nl1(P, C)
     # 'releases every resource exactly once': the FITS handle of a refused or failed read is closed on every path
     ed.rh1(P, C)
+    ed.ed4(P, C)
     C.extra["units"] = sorted(P.units.keys())
     C.extra["functions_analysed"] = len(P.functions)
     return C.finish()
@@ -355,6 +356,8 @@ def c19(tier):
     sm.sm2(P, C)
     sm.sm3(P, C)
     sm.sm4(P, C)
+    # the model reads the per-dimension orders through readOrder: ORDERn must land in order[n] there as in the reader
+    fs.fs8(P, C)
     n = sm.ts3a(P, C)
     C.extra["reader_allocation_sites"] = na
     C.extra["model_terms"] = nt
@@ -375,6 +378,7 @@ def c06(tier):
     fs.run(P, C)
     fs.fs6(P, C)
     fs.fs7(P, C)
+    fs.fs8(P, C)
     # auxiliary values survive the round trip only if write_key refuses what a card cannot hold
     ax.ks1(P, C)
     ax.uw3(P, C)
@@ -394,6 +398,8 @@ def c17(tier):
               assumptions=["slicemultiply computes the mode-i product (its internals are index arithmetic over runtime shapes, not analysed)"])
     P = core.load(tier=tier, extra_units=selftest.UNITS)
     ge.run(P, C)
+    # a slice multiplication that failed is not silently skipped (the array would not be the grid)
+    ed.ed4(P, C)
     cw.cw1(P, C, only=("splinetable_grideval",))
     cw.cw2(P, C, only=("splinetable_grideval",))
     C.extra["units"] = sorted(P.units.keys())
